@@ -270,6 +270,9 @@ def o_C16(ctx):
         why = first(t, "x_rbwhy", "")
         if why.startswith("weight"):
             v.append(([c.id], "weight differs from rust-bitcoin: %s" % why))
+        dbtx = first(t, "x_dbtx")
+        if dbtx is not None and dbtx.split(",")[0] != "1":
+            v.append(([c.id], "a transaction decoded from its database bytes reports a different weight than the parsed one"))
     return v
 
 
@@ -306,6 +309,9 @@ def rel_pair(short, long_, v, what):
         v.append(([c1.id, c2.id], "%s: fails with MoreBytesNeeded, but a prefix of it gives %s" % (c1.entry, "Ok" if r1 == ("ok",) else err_name(r1[1:]))))
     if r2 == ("ok",):
         k = int(first(t2, "consumed"))
+        if len(c1.inp) >= k and r1 != ("ok",):
+            v.append(([c1.id, c2.id], "%s: succeeds consuming %d bytes when followed by more bytes, but parsing those %d bytes (the %d-byte prefix) gives %s" % (
+                c1.entry, k, k, len(c1.inp), err_name(r1[1:]) if r1[0] == "err" else r1[0])))
         if len(c1.inp) < k and not (r1[0] == "err" and r1[1] == 1):
             v.append(([c1.id, c2.id], "%s: succeeds consuming %d bytes, but the %d-byte prefix gives %s instead of MoreBytesNeeded" % (c1.entry, k, len(c1.inp), "Ok" if r1 == ("ok",) else err_name(r1[1:]))))
 
@@ -437,6 +443,9 @@ def o_C10(ctx):
                     exp = sha256d(b"".join(c.inp[o:o + l] for o, l in r["info"]["pre"])).hex()
                     if first(t, k) != exp:
                         v.append(([c.id], "%s = %s is not the double SHA-256 of the stripped serialization (%s)" % (k[2:], first(t, k), exp)))
+            dbtx = first(t, "x_dbtx")
+            if dbtx is not None and (dbtx.split(",")[1] != "1" or dbtx.split(",")[2] != "1"):
+                v.append(([c.id], "a transaction decoded from its database bytes has a different txid preimage / txid than the parsed one"))
             if first(t, "x_pre_inside") == "0":
                 v.append(([c.id], "a txid preimage part is not a window of the input"))
             why = first(t, "x_rbwhy", "")
